@@ -507,6 +507,22 @@ static void run_mutations(void)
 	xp_state(hash_mix(hash64(m.p, m.len, 5), (uint64_t)ws));
 }
 
+/* batch hook: the given descriptor is dispatched first */
+static int first_fd;
+static int first_fd_hook(struct sim_ready *list, int n, int maxevents)
+{
+	(void)maxevents;
+	for (int i = 1; i < n; i++) {
+		if (list[i].fd == first_fd) {
+			struct sim_ready v = list[i];
+			memmove(&list[1], &list[0], sizeof(list[0]) * (size_t)i);
+			list[0] = v;
+			break;
+		}
+	}
+	return n;
+}
+
 /* ------------------------------------------------------------------ sections 2-4: websocket frames */
 static void run_frames(int section)
 {
@@ -524,7 +540,7 @@ static void run_frames(int section)
 		for (int i = 0; i < nf; i++) {
 			fr[i] = WSF_ALPHA[xp_choose(alpha, XP_SCENARIO, "frame")];
 		}
-		delivery = xp_choose(nf == 2 ? 3 : 2, XP_SCENARIO, "delivery"); /* 0 one readiness event per frame, 1 all frames in one read, 2 second frame on another connection in the same batch */
+		delivery = xp_choose(nf == 2 ? 4 : 2, XP_SCENARIO, "delivery"); /* 0 one readiness event per frame, 1 all frames in one read, 2 second frame on another connection in the same batch, 3 all frames in one read in the same batch as the expiry of a routed request of this connection, the connection dispatched first */
 	}
 	wsf_describe(&fr[0], d0, sizeof(d0));
 	if (nf > 1) {
@@ -548,6 +564,19 @@ static void run_frames(int section)
 	if (nf == 1) {
 		wsf_build(&fr[0], &b);
 		send_hostile(A, b.p, b.len);
+	} else if (delivery == 3) {
+		/* the connection has a request in flight whose deadline passes at the very moment its frames arrive */
+		jx_sendf(A, "{\"id\":\"inflight\",\"method\":\"call\",\"params\":{\"path\":\"mb\",\"args\":[1],\"timeout\":1}}");
+		jx_settle();
+		for (int i = 0; i < nf; i++) {
+			wsf_build(&fr[i], &b);
+		}
+		sim_client_send(A, b.p, b.len);
+		sim_advance(1000000000ULL);
+		first_fd = sim_conn_fd(A);
+		sim_batch_hook = first_fd_hook;
+		jx_settle();
+		sim_batch_hook = NULL;
 	} else if (delivery == 1) {
 		for (int i = 0; i < nf; i++) {
 			wsf_build(&fr[i], &b);
@@ -723,6 +752,6 @@ const struct driver drv_c06 = {
     .name = "c06",
     .property = "C06",
     .run = run,
-    .rule = "section 0: every byte string of length <= maxlen over {{ } [ ] \" : , 0 00 ff space a} x 6 endpoint forms (raw tcp stream, unix socket stream, payload of a raw message, payload of a websocket text message, http listener stream, websocket stream after the upgrade) x {FIN, well-formed request follows; for the three stream forms also: bytes already queued when the daemon accepts the connection, with or without the FIN in that same batch}; section 1: 24 JSON-RPC corpus messages (every method with its optional members, responses to unknown and to live routed ids, a batch) x every node x {delete, duplicate, duplicate as null, rename upper-case, rename prefixed, 16 retypings, 11 string lengths incl. 97..101 and the longest that fits / one more, nesting 50/150/240} x 2 transports, each followed by 8 trigger requests, a routed call, disconnect; section 2: the complete single-frame product opcode(16) x FIN x RSV(8) x MASK x length encoding(3) x 16 payload lengths (0..65536, 2^63, 2^63-1); section 3: all ordered pairs over a 26-frame alphabet x 3 deliveries (one event per frame, one read, two connections in one batch); section 4: all ordered triples over 10 frames x 2 deliveries; section 5: each of the 26 frames / 5 raw inputs sent 1..3 times by a peer whose own send path is blocked (window 0 with a full write buffer, every writev failing, window 0 with room left); deviation budget 1: every split point (<= 300) of the hostile bytes, queued at once or after a would-block; oracle: ASan+UBSan (no crash / report), bystander untouched and served, listeners accept, resources at baseline, descriptor hygiene, clean SIGTERM exit; non-trivial = every non-empty input",
+    .rule = "section 0: every byte string of length <= maxlen over {{ } [ ] \" : , 0 00 ff space a} x 6 endpoint forms (raw tcp stream, unix socket stream, payload of a raw message, payload of a websocket text message, http listener stream, websocket stream after the upgrade) x {FIN, well-formed request follows; for the three stream forms also: bytes already queued when the daemon accepts the connection, with or without the FIN in that same batch}; section 1: 24 JSON-RPC corpus messages (every method with its optional members, responses to unknown and to live routed ids, a batch) x every node x {delete, duplicate, duplicate as null, rename upper-case, rename prefixed, 16 retypings, 11 string lengths incl. 97..101 and the longest that fits / one more, nesting 50/150/240} x 2 transports, each followed by 8 trigger requests, a routed call, disconnect; section 2: the complete single-frame product opcode(16) x FIN x RSV(8) x MASK x length encoding(3) x 16 payload lengths (0..65536, 2^63, 2^63-1); section 3: all ordered pairs over a 26-frame alphabet x 4 deliveries (one event per frame, one read, two connections in one batch, one read in the same batch as the expiry of a routed request of the sending connection with the connection dispatched first); section 4: all ordered triples over 10 frames x 2 deliveries; section 5: each of the 26 frames / 5 raw inputs sent 1..3 times by a peer whose own send path is blocked (window 0 with a full write buffer, every writev failing, window 0 with room left); deviation budget 1: every split point (<= 300) of the hostile bytes, queued at once or after a would-block; oracle: ASan+UBSan (no crash / report), bystander untouched and served, listeners accept, resources at baseline, descriptor hygiene, clean SIGTERM exit; non-trivial = every non-empty input",
     .assumptions = "the input space of C06 is infinite: exhaustive only over the stated shapes|the sanitizers detect invalid accesses to heap/stack/global objects and the UB classes of -fsanitize=undefined, not every conceivable undefined behaviour",
 };
